@@ -10,6 +10,8 @@ Case kinds
               end_line/end_column = line/column of that token's last character, character_stream = text[start:end)
               (a parenthesised expression: the span including its parentheses, as p_grouped_expression re-stamps
               the operand).  Container nodes (body, block, lists, parameters, event specs) are not checked.
+  strnl  a generated program in which a double-quoted string literal is written with a raw line break inside it
+           D: ParseException, or a tree whose checked nodes carry the positions of the written tokens (as `pos`)
   total  arbitrary strings / random token sequences / single-edit mutations of valid programs (70 %)
            D: the outcome is a tree or `oal.ParseException`, within a time budget linear in the length
   time   adversarial families (open comment + newlines / stars, quotes, digits, ...) of growing length
@@ -113,6 +115,30 @@ def _pos_case(rng, style, max_depth, max_stmts, empty_blocks, tag):
         st['layout-' + k] = v
     return {'kind': 'pos', 'text': pl.text, 'toks': toks, 'nodes': nodes, 'style': style, 'stats': st,
             'kinds': [t.kind for t in prog.toks], 'gen': tag}
+
+
+def _strnl_case(rng, tag):
+    """a generated program in which a double-quoted string literal is written with a RAW LINE BREAK inside (the
+    writer's cursor counts it like any other line break).  The STRING rule excludes '\\n', so the text is not a valid
+    program - but whatever comes back is checked: a tree must carry exact positions (every statement / expression node
+    that the written token sequence predicts), anything else must be oal.ParseException."""
+    for attempt in range(40):
+        r = rng.fork(attempt)
+        prog = G.gen_program(r, max_depth=r.choice([2, 3]), max_stmts=r.choice([2, 4, 6]), empty_clause_blocks=False)
+        idx = [i for i, t in enumerate(prog.toks) if t.kind == 'STRING']
+        if idx:
+            break
+    else:
+        return None
+    spell = [None] * len(prog.toks)
+    for i in r.sample(idx, r.choice([1, 1, 2]) if len(idx) > 1 else 1):
+        lx = prog.toks[i].lexeme
+        at = r.randrange(1, len(lx))
+        spell[i] = lx[:at] + r.choice(['\n', '\n', '\n\n', ' \n ']) + lx[at:]
+    pl = G.layout(r, prog, r.choice(['plain', 'plain', 'wild']), spell)
+    nodes = [[cls, f, l, flag] for f, l, cls, flag in G.checked_spans(prog.root)]
+    toks = [[pl.start[i], pl.stop[i], pl.line[i], pl.col[i], pl.eline[i], pl.ecol[i]] for i in range(len(prog.toks))]
+    return {'kind': 'strnl', 'text': pl.text, 'ptoks': toks, 'pnodes': nodes, 'gen': tag}
 
 
 def _linecol(text, off):
@@ -243,6 +269,12 @@ def generate(ctx):
         r = rng.fork(i)
         style = r.choice(['wild', 'wild', 'wild', 'plain', 'tight'])
         yield _pos_case(r, style, r.choice([2, 3, 3, 4]), r.choice([1, 3, 6, 9]), True, ['pos', i])
+    # a raw line break inside a double-quoted string: rejected, or a tree with exact positions
+    rng = ctx.rng.fork('strnl')
+    for i in range(ctx.pick(200, 3000)):
+        c = _strnl_case(rng.fork(i), ['strnl', i])
+        if c is not None:
+            yield c
     # totality
     rng = ctx.rng.fork('total')
     n_tot = ctx.pick(7000, 100000)
@@ -283,6 +315,10 @@ def search(ctx, broken):
         r = rng.fork(i)
         i += 1
         yield _pos_case(r, 'wild', 3, r.choice([2, 5, 9]), True, ['search', i])
+        if i % 4 == 0:
+            c = _strnl_case(r.fork('strnl'), ['search-strnl', i])
+            if c is not None:
+                yield c
         if i % 3 == 0:
             yield {'kind': 'total', 'stream': 'arbitrary', 'text': G.arbitrary_string(r, 80)}
 
@@ -341,15 +377,32 @@ def _walk_checked(x, acc):
     return acc
 
 
+def _column(lexer, lexdata, pos):
+    """`find_column` of the implementation for offset `pos` of the text the lexer has just tokenised.  The helper is
+    called the way the library calls it NOW: with the text (the published signature) or, when that raises, with the
+    lexer that text_input built and that has scanned the whole text (what set_positional_info has at hand) - any
+    per-lexer state the rules fill in is then the state after lexing, exactly as at a reduction.  A helper that can
+    be called in neither way is an observation (K fails on the case), never a crash of the harness."""
+    try:
+        return _oal.find_column(lexdata, pos)
+    except Exception:
+        try:
+            return _oal.find_column(lexer, pos)
+        except Exception as e:
+            return [Sym('find_column-raised'), type(e).__name__]
+
+
 def _impl_obs(case, lexdata):
-    toks = G.ply_tokens(lexdata)
+    lexer = G.oal_lexer()
+    toks = G.ply_tokens(lexdata, lexer)
     obs_t = [[Sym(t[0]), t[1], t[2], t[3], t[4], t[5]] for t in toks]
     spans = []
     for cls, f, l, flag in case.get('nodes', []):
         if f < len(toks) and l < len(toks):
             a, b = toks[f], toks[l]
             ss, es = a[2], b[3]
-            spans.append([ss, a[4], _oal.find_column(lexdata, ss), es, b[5], _oal.find_column(lexdata, es) - 1,
+            ec = _column(lexer, lexdata, es)
+            spans.append([ss, a[4], _column(lexer, lexdata, ss), es, b[5], ec - 1 if isinstance(ec, int) else ec,
                           lexdata[ss:es]])
         else:
             spans.append(Sym('none'))
@@ -445,6 +498,18 @@ def run_impl(case):
                     f['what'] += '  [text %s of a sequence parsed back to back in one process, first text: %r]' % (it['role'], short)
         first = case['items'][0]
         _check_positions(text, first['toks'], first['nodes'], out, root, {}, stats, fails, short)
+    elif case['kind'] == 'strnl':
+        nontrivial = True
+        stats['strnl_' + out.split(':')[0]] = 1
+        if out == 'tree':
+            own = {}
+            before = len(fails)
+            _check_positions(text, case['ptoks'], case['pnodes'], out, root, {}, own, fails, short)
+            for f in fails[before:]:
+                f['sig'] = 'string-with-line-break:' + f['sig']
+                f['what'] += '  [a double-quoted string of this text contains a raw line break]'
+            stats['strnl_tree_shape_differs'] = own.get('pos_shape_differs', 0)
+            stats['strnl_nodes_checked'] = own.get('nodes_checked', 0)
     elif case['kind'] == 'total':
         stats['stream_' + case['stream']] = 1
         nontrivial = len(text) > 0
@@ -514,7 +579,7 @@ def model_obs(case, ans):
 
 
 def shrink_candidates(case):
-    if case['kind'] in ('pos', 'seq', 'tight', 'grammar', 'regex'):
+    if case['kind'] in ('pos', 'seq', 'tight', 'grammar', 'regex', 'strnl'):
         return
     text = case['text']
     n = len(text)
